@@ -90,7 +90,7 @@ ASSUMPTIONS = ["list-valued pre-grouping attributes may be given as lists or tup
                "what the caller does to its own objects between two calls (in-place edits, mutated results) reaches the model as the resulting "
                "template list (OTemplates); the model functions are pure, so every call equals its fresh evaluation by construction"]
 TESTED_NOT_PROVED = []
-LEVEL_TEXT = ("Machine-checked proof (Coq, 30 theorems in coq/props/C13.v, all closed under the global context). Generic part, for every list "
+LEVEL_TEXT = ("Machine-checked proof (Coq, 33 theorems in coq/props/C13.v, all closed under the global context). Generic part, for every list "
               "of items and every decidable test `iso` that is an equivalence, with an iso-invariant pre-grouping attribute as the code reads "
               "it: GraphCluster.iterative_cluster / fit (visited set, comparison with the first member only, attribute pre-filter) gives every "
               "item exactly one class and two items share a class IFF iso (C13_partition; clusters list = rule_to_cluster, a partition of the "
@@ -110,7 +110,9 @@ LEVEL_TEXT = ("Machine-checked proof (Coq, 30 theorems in coq/props/C13.v, all c
               "isomorphic one), C13_gc_trace_exact (the EXACT test sequence as a function of the returned clusters: every cluster's first member against "
               "every later position of equal attribute that is in no earlier cluster), C13_gc_trace (no pair twice, <= n(n-1)/2 tests), "
               "C13_raw_matchers (attribute selection), C13_ctor_contract (constructor contract of both classes), C13_stepx_state, "
-              "C13_graph_isomorphism_options (None matchers / use_defaults of graph_morphism.graph_isomorphism). "
+              "C13_graph_isomorphism_options (None matchers / use_defaults of graph_morphism.graph_isomorphism), C13_partition_raw and C13_incremental_raw (the partition and the incremental "
+              "theorem on the caller's raw graphs: same class IFF a bijection preserves the configured labels after defaults and every bond's "
+              "presence and configured attribute; any number of labels). "
               "Model and code are compared after every call on every run.")
 LEVEL_NOTE = ("Trusted: Coq kernel + vm_compute; the hand-written model and encoders; networkx is_isomorphic returns the verdict of the verified "
               "enumerator (the generic theorems need only that it is an equivalence; monitored: classes compared after every call, oracle uses "
